@@ -10,6 +10,8 @@ import (
 	"net/url"
 	"strings"
 	"time"
+
+	"github.com/ory/fosite"
 )
 
 // C14 — ID Tokens are bound to the right client, user, nonce and tokens.
@@ -118,7 +120,17 @@ func c14Run(c c14Case, res *WRes) {
 	if c.Nonce != "-" {
 		params.Set("nonce", c.Nonce)
 	}
-	if c.MaxAge != "" {
+	maxAge := c.MaxAge
+	if strings.HasPrefix(maxAge, "ro:") {
+		// max_age travels as a JSON number inside a signed request object (its natural type there)
+		maxAge = strings.TrimPrefix(maxAge, "ro:")
+		var n int
+		fmt.Sscan(maxAge, &n)
+		if a, ok := w.Mem.Clients["A"].(*fosite.DefaultClient); ok {
+			w.Mem.Clients["A"] = &fosite.DefaultOpenIDConnectClient{DefaultClient: a, RequestObjectSigningAlgorithm: "RS256", JSONWebKeys: jwks(pubJWK(rsaKey("rsa1"), "rk", "RS256"))}
+		}
+		params.Set("request", signJWT(rsaKey("rsa1"), "RS256", "rk", map[string]any{"iss": "A", "aud": IssuerURL, "client_id": "A", "max_age": n}, nil))
+	} else if c.MaxAge != "" {
 		params.Set("max_age", c.MaxAge)
 	}
 	if c.Prompt != "" {
@@ -129,10 +141,10 @@ func c14Run(c c14Case, res *WRes) {
 	}
 	// does the session satisfy the request? (reference)
 	unsat := ""
-	if ma := c.MaxAge; ma != "" {
+	if ma := strings.TrimPrefix(c.MaxAge, "ro:"); ma != "" {
 		var n int
 		fmt.Sscan(ma, &n)
-		if n > 0 && c.AuthTime+n < 0 {
+		if n >= 0 && c.AuthTime+n < 0 { // max_age=0: the authentication must not be older than the request
 			unsat = "max_age"
 		}
 	}
@@ -377,7 +389,10 @@ func init() {
 					continue
 				}
 				for _, at := range []int{-600, 0, 3} {
-					for _, ma := range []string{"", "300", "1000"} {
+					for _, ma := range []string{"", "0", "300", "1000", "ro:300"} {
+						if ma == "ro:300" && j.Flow == "device" {
+							continue
+						}
 						for _, pr := range []string{"", "none", "login", "login consent", "consent"} {
 							for _, hi := range []string{"none", "same", "other", "expired-same"} {
 								for _, ps := range []string{"none", "future", "past"} {
@@ -417,7 +432,7 @@ func init() {
 			}
 			jobs = append(jobs, c14Job{Flow: f, Keys: c14Keys, Full: false})
 		}
-		r.Bounds = map[string]any{"flows": c14Flows, "keys_and_algorithms": c14Keys, "full_grid_keys": fullKeys, "nonce": []string{"absent", "present"}, "auth_time_rel_s": []int{-600, 0, 3}, "max_age": []string{"", "300", "1000"},
+		r.Bounds = map[string]any{"flows": c14Flows, "keys_and_algorithms": c14Keys, "full_grid_keys": fullKeys, "nonce": []string{"absent", "present"}, "auth_time_rel_s": []int{-600, 0, 3}, "max_age": []string{"", "0", "300", "1000", "300 as a JSON number inside a signed request object"},
 			"prompt": []string{"", "none", "login", "login consent", "consent"}, "id_token_hint": []string{"none", "same subject", "other subject", "expired, same subject"}, "preset_expiry": []string{"none", "future", "past"},
 			"extras": []string{"none", "session extra claims trying to override reserved claims", "pre-set audience", "empty subject", "no openid scope"}, "refresh_chain": 3}
 		r.Rule = "full grid (flow x nonce x auth_time x max_age x prompt x hint x preset expiry x extras) for the full-grid keys, plus flow x all 7 key/algorithm pairs x nonce x extras; every ID token found in any response is verified with the server's public key and its claims recomputed from the same response (at_hash / c_hash with the hash selected by the token's alg); distinct = distinct (case, response) with a checked ID token"
